@@ -5,6 +5,7 @@ import (
 	"sync"
 
 	"github.com/expr-lang/expr"
+	"github.com/expr-lang/expr/builtin"
 	"github.com/expr-lang/expr/vm"
 
 	"github.com/titpetric/vuego/internal/helpers"
@@ -37,7 +38,7 @@ func (e *ExprEvaluator) Eval(expression string, env map[string]any) (any, error)
 	expression = helpers.NormalizeComparisonOperators(expression)
 
 	// Get or compile the program
-	prog, err := e.getProgram(expression)
+	prog, err := e.getProgram(expression, shadowedBuiltins(env))
 	if err != nil {
 		return nil, err
 	}
@@ -50,24 +51,46 @@ func (e *ExprEvaluator) Eval(expression string, env map[string]any) (any, error)
 	return result, nil
 }
 
-// getProgram returns a cached compiled program or compiles a new one.
-func (e *ExprEvaluator) getProgram(expression string) (*vm.Program, error) {
+// shadowedBuiltins lists the functions of the expression library whose names the environment
+// uses for variables (a loop variable called last, a counter called len or one): there the
+// name means the variable. The names come in the library's fixed order.
+func shadowedBuiltins(env map[string]any) []string {
+	var names []string
+	for _, name := range builtin.Names {
+		if _, ok := env[name]; ok {
+			names = append(names, name)
+		}
+	}
+	return names
+}
+
+// getProgram returns a cached compiled program or compiles a new one. The functions named in
+// shadowed are left out of the compilation; programs are cached per expression and such set.
+func (e *ExprEvaluator) getProgram(expression string, shadowed []string) (*vm.Program, error) {
+	key := expression
+	for _, name := range shadowed {
+		key += "\x00" + name
+	}
 	e.mu.RLock()
-	if prog, ok := e.programs[expression]; ok {
+	if prog, ok := e.programs[key]; ok {
 		e.mu.RUnlock()
 		return prog, nil
 	}
 	e.mu.RUnlock()
 
 	// Compile the expression
-	prog, err := expr.Compile(expression, expr.AllowUndefinedVariables(), expr.DisableBuiltin("count"))
+	options := []expr.Option{expr.AllowUndefinedVariables(), expr.DisableBuiltin("count")}
+	for _, name := range shadowed {
+		options = append(options, expr.DisableBuiltin(name))
+	}
+	prog, err := expr.Compile(expression, options...)
 	if err != nil {
 		return nil, fmt.Errorf("compile error: %w", err)
 	}
 
 	// Cache it
 	e.mu.Lock()
-	e.programs[expression] = prog
+	e.programs[key] = prog
 	e.mu.Unlock()
 
 	return prog, nil
